@@ -11,8 +11,8 @@ import (
 	"github.com/cockroachdb/pebble"
 	"github.com/cockroachdb/pebble/internal/base"
 	"github.com/cockroachdb/pebble/internal/manifest"
-	"github.com/cockroachdb/pebble/record"
 	"github.com/cockroachdb/pebble/rangekey"
+	"github.com/cockroachdb/pebble/record"
 	"github.com/cockroachdb/pebble/verifsim/kvmodel"
 	"github.com/cockroachdb/pebble/verifsim/simrt"
 )
